@@ -310,6 +310,9 @@ def run(ctx):
             break
         G, H = synthetic_pair(rng)
         check_synthetic(ctx, G, H, "synthetic reactant/product pairs on a shared node set (<=7 atoms)")
+    if not ctx.quick and ctx.shard == 0:
+        from vmon import suite
+        suite.run_under(ctx, "c01")  # the repository's own tests with this monitor installed
 
 
 def replay(ctx, v):
